@@ -25,7 +25,8 @@ ForgeriesQuick == <<
   D(1, "keymismatch", "ok", "none"),
   U(8, 9, "ok", "ok", "none", 45),
   U(5, 4, "bad", "ok", "none", 48),    \* next commitment already consumed earlier in the chain
-  U(4, 8, "bad", "absent", "none", 49) \* no delta member at all
+  U(4, 8, "bad", "absent", "none", 49), \* no delta member at all
+  R(1, 8, 8, "forged", "mismatch", "none", 56)  \* forged signature AND a delta that does not match the signed hash
 >>
 
 ForgeriesMore == <<
@@ -34,6 +35,8 @@ ForgeriesMore == <<
   R(1, 8, 8, "bad", "ok", "none", 53),
   R(1, 8, 8, "keymismatch", "ok", "none", 54),
   R(8, 9, 9, "ok", "ok", "none", 55),
+  R(1, 8, 8, "bad", "invalid", "none", 57),
+  U(4, 8, "bad", "fail", "none", 58),
   D(1, "forged", "ok", "none"),
   D(1, "payload", "ok", "none"),
   D(2, "bad", "ok", "none"),
@@ -42,7 +45,7 @@ ForgeriesMore == <<
 >>
 
 AlphaQuick    == LegitChain \o ForgeriesQuick
-AlphaThorough == LegitChain \o ForgeriesQuick \o SubSeq(ForgeriesMore, 1, 9)
+AlphaThorough == LegitChain \o ForgeriesQuick \o SubSeq(ForgeriesMore, 1, 11)
 
 CoordsQuick    == {<<1, 0>>, <<2, 1>>, <<2, 2>>, <<3, 0>>}
 CoordsThorough == {<<1, 0>>, <<1, 1>>, <<2, 1>>, <<2, 2>>, <<3, 0>>}
